@@ -38,6 +38,29 @@ CHECKS = {
         "scipy.stats.qmc is the trusted reference; default sampler options; 'per realization' is checked as 'not all realizations identical'.",
         "DESIGN.md §3 C17",
     ),
+    "C01": (
+        "exploration",
+        "Hypothesis over ensemble configurations; closed-form reference model + metamorphic relations (batch layout, unrelated columns)",
+        "Random ensembles (R<=6, K<=3, C<=2) with non-uniform/zero realization and objective weights, mean/stddev estimator maps, 0-2 filters of "
+        "all four kinds with -1 entries in the maps, NaN masks in any column, all realization_min_success values, single vectors and batches; every "
+        "reported objective, constraint and weighted objective is recomputed by an independent formula from the evaluator's values and the weights in "
+        "force, flags and the min-success gate are checked, a value must be bit-identical alone and at any batch position and must not change when "
+        "only an unrelated function's values change. Sampled, not exhaustive.",
+        "Filter-produced weight rows are read from the results (C04/C05 decide them); tolerance 1e-10 relative; undefined cases (no weighted success) "
+        "are counted, not compared.",
+        "DESIGN.md §3 C01",
+    ),
+    "C02": (
+        "exploration",
+        "Hypothesis over affine ensembles with built-in and injected design samplers; exact-gradient reference model gated by the stated conditioning predicate",
+        "Affine ensembles with weights, masks, all six built-in samplers and injected deterministic designs, magnitudes, bounds/boundary types, failed "
+        "perturbations/realizations, filters, mean/stddev, merged or per-realization estimation, VariableScaler, combined/split evaluation and "
+        "function-then-gradient histories at the same, a nearby or a distant point; whenever the reported perturbation-difference matrices satisfy the "
+        "rank/1%-energy predicate the reported gradients must equal the exact ones (mean: weighted slopes, stddev: chain rule); fixed entries must be "
+        "exactly 0.0 in every case. The known merged-gradient defect is recognised by its own model and excluded so the search continues behind it.",
+        "Failure flags and filter weights are read from the results (C03-C05 decide them); tolerance 1e-6*(1+max|slope|); sigma<1e-6 skipped.",
+        "DESIGN.md §3 C02",
+    ),
 }
 
 NOT_YET = "check not built yet in this session (planned, see DESIGN.md §3)"
